@@ -43,13 +43,14 @@ claim("C16",
       "decomposition lemma; floats exact",
       "DESIGN.md 4/C16")
 claim("C18",
-      "bond_percolate is executed with phi and one draw per edge as solver reals; all 2^|E| comparison outcomes are "
-      "explored and on each the result must equal the largest-component fraction of exactly the edges with r_e < phi "
-      "(for all values of the draws), input graph unchanged",
-      "bounded: graphs <=4 (quick) / 5 vertices, <=7 edges; the distributional statement (Bernoulli(phi) per edge, "
-      "Binomial on stars) follows from the per-draw law under the trusted uniformity of random.random(); boundary "
-      "r_e=phi (measure zero) excluded",
-      "DESIGN.md 4/C18")
+      "bond_percolate is executed with phi and one draw per bond as solver reals; on ONE path it is called once for each of "
+      "the 2^|E| above/below-phi patterns of the draws (each draw is placed in its region before the library compares it and "
+      "stays symbolic there) and the table of results must be the largest-component fractions of the kept bonds under some "
+      "one-to-one assignment of draws to bonds (no assumption on the order in which bonds are visited); input graph unchanged",
+      "bounded: graphs <=4 (quick) / 5 vertices, <=8 bonds (all assignments searched up to 7 bonds); the distributional "
+      "statement (Bernoulli(phi) per bond, Binomial on stars) follows from the per-draw law under the trusted uniformity of "
+      "random.random(); boundary r_e=phi (measure zero) excluded",
+      "DESIGN.md 4/C18, 9.4")
 claim("C13",
       "every small annotated network (adjacency bits, edge topologies and annotations are solver variables forked "
       "exhaustively) is fed to the real extractor three times in a row; every matrix entry is compared with a direct "
@@ -83,10 +84,11 @@ claim("C03",
       "uniformity is decided by (1) one full-length uniform primitive per column on its canonical stub list, (2) "
       "solver proofs that arrangement -> slot sequence is well defined and injective (two symbolic permutations), (3) "
       "independence of columns, (4) exact model counting over all permutations (blocking clauses) on small sequences "
-      "incl. the 8/8/8 perfect-matching example",
-      "trusts CPython's shuffle to be uniform; <=6 (quick) / 8 stubs per column for 1-3, <=5 stubs for the tallies; "
+      "incl. the 8/8/8 perfect-matching example; generators that randomise through bounded discrete draws (hand-written "
+      "Fisher-Yates) are decided by (4) alone: one path per resolution of the draws, probability prod 1/range, table over all paths",
+      "trusts CPython's shuffle / randrange to be uniform; <=6 (quick) / 8 stubs per column for 1-3, <=5 stubs for the tallies; "
       "generators randomising through real-valued draws are reported undecided",
-      "DESIGN.md 4/C03")
+      "DESIGN.md 4/C03, 9.4")
 
 claim("C04",
       "both converters run on edge lists whose end points are solver variables (forked by networkx hashing: self-loops, "
@@ -97,13 +99,15 @@ claim("C04",
       "DESIGN.md 4/C04")
 
 claim("C05",
-      "sample_jds_from_jdd runs with symbolic positive weights and symbolic draw indices (random.choices / randrange "
-      "stubs); divisibility, never-removes and minimal-addition are integer queries valid for every draw outcome on "
-      "the path; the weighted-draw law is the cross-ratio identity of the weights handed to the single choices call",
+      "sample_jds_from_jdd runs with symbolic positive weights and symbolic draw indices (random.choices / randrange / choice "
+      "stubs); the N drawn keys are observed at the public handshaking_lemma; divisibility, never-removes and minimal-addition "
+      "are integer queries valid for every draw outcome on the path; the weighted-draw law is the cross-ratio identity of the "
+      "weights handed to the weighted choices call, or - for samplers built on random.random() - entailment of the cumulative-weight "
+      "interval plus an exact table of path measures (volume of each path's box of uniform variates) on concrete weight vectors",
       "bounded: N<=3/4, <=3/4 keys, <=3 topologies (duplicate motif sizes included), entries <=2/3, numpy-scalar keys, "
-      "resample histories on one loader; trusts random.choices' weighting; a sampler not built on random.choices is "
-      "reported undecided",
-      "DESIGN.md 4/C05")
+      "resample histories on one loader; law-by-measure on four concrete weight vectors with N<=2; trusts random.choices' "
+      "weighting and random.random()'s uniformity; other draw mechanisms are reported undecided",
+      "DESIGN.md 4/C05, 9.4")
 claim("C06",
       "every loader is run with symbolic payload (weights, marginal values and joint-function values are fresh positive "
       "reals from harness lookup tables, bounds and observed sequences are solver variables forked at range/Counter); "
@@ -170,9 +174,10 @@ claim("C17",
       "the brute-force bond-percolation expectation of its motif with u_j = product of j's other motifs' messages "
       "(polynomial identity => holds at every iteration of every run); whole runs with symbolic phi equal a reference "
       "Gauss-Seidel sweep of the exact equations (25 iterations on tree-like networks); query histories; sweep coverage; "
-      "range, per-message monotonicity and (for <=3-vertex motifs) phi-monotonicity of the step",
-      "convergence to the fixed point is analysis and NOT decided; phi-monotonicity for motifs of >=4 vertices rests on "
-      "the proved identity plus the coupling lemma (not counted as discharged); pool of 5/7 networks; floats exact",
+      "range, per-message monotonicity and phi-monotonicity of the step (direct query for <=3-vertex motifs, per-edge "
+      "decomposition - diagonal identity, affine in every edge probability, corner inequalities - for larger ones)",
+      "convergence to the fixed point is analysis and NOT decided; phi-monotonicity for motifs of >=4 vertices is decided up "
+      "to the corner lemma for multi-affine functions; pool of 7/8 networks; floats exact",
       "DESIGN.md 4/C17")
 claim("C19",
       "the four factories run with symbolic parameters; exp and real powers are uninterpreted functions with instantiated "
